@@ -1,9 +1,16 @@
 import I2N.Lemmas.Trav
+import I2N.Lemmas.TravExcl
 import I2N.Model.TravMon
 /-!
 # C04 — A test is never executed by two workers of one scope at the same time
 
 Model: `I2N/Model/Trav.lean`, `TravStep.lean` (the one `drv_trav` runs); monitors: `TravMon.lean`.
+
+The headline is `exclusion` (below): in every state the scheduler can reach — any graph, any number of workers,
+any interleaving of `resume` steps, any test outcomes — the number of workers within one reuse scope that hold the
+`started` mark of a class (the mark is set before the run decision and cleared after the test and its clean-up, so
+it covers every execution, DESIGN.md §6) is at most the class' threshold.  Vocabulary and the preservation proofs
+per model function are in `I2N/Lemmas/TravExcl.lean`.
 -/
 namespace I2N.Props.C04
 open I2N.Trav
@@ -83,5 +90,159 @@ def s3 : State :=
 example : isOccupied g3 s3 1 1 = true := by decide
 example : isCleanupReady g3 s3 g3.root 1 = false := by decide
 example : (iter g3 s3 1).2.1 = [Event.sleep "net2" 10] := by decide
+
+/-! ### the exclusion invariant over all reachable states
+
+Vocabulary (`Lemmas/TravExcl.lean`): `scopedCount g s n w` is the very number `is_started` compares with its threshold
+for copy `n` and worker `w` (the workers within `w`'s scope — `own`: `w` only, `swarm`: `w`'s swarm, `global`: all — that
+have some copy of `n`'s class started); `limit g s n = max(mct, 1)` is the threshold of `is_occupied` in force for copy `n`
+(it includes the bumps); `peakLimit` the largest threshold copy `n` has had so far; `classLimit g s c` the maximum of
+`peakLimit` over the copies of class `c`; `Inv g s` says `scopedCount g s n w ≤ classLimit g s (cls n)` for all parsed
+copies `n` and all `w`.
+
+Hypothesis `Homog g` (static, decidable): the copies of one class agree on the scope shape, and a flat node does not
+share a class with a parsed one.  Both halves are needed in the model: an `own`-shaped copy ignores the threshold
+(witness `mixed_shapes_overlap` below), and a flat node is never occupied, so its mark would be unguarded.
+No well-formedness of the state or of the edges is needed.
+
+Why `peakLimit` and not the current `limit`: the first bump sets `max_concurrent_tries := get_numeric(mct, 0) + 1`,
+which *lowers* the threshold of that copy from `max_tries` to 1 when `max_concurrent_tries` was not configured and
+`max_tries > 1` (witness `first_bump_may_lower_limit`); workers that entered under the old threshold are still inside.
+The bound by the thresholds currently in force is `exclusion_now` (for graphs where thresholds only grow) and
+`exclusion_static` (no bump). -/
+
+/-- The bridge: `is_occupied` is "the count within the worker's scope has reached the threshold"
+(for shape `own` the code ignores the threshold: occupied iff the worker itself holds the class). -/
+theorem occupied_iff_count (g : Graph) (s : State) (n w : Nat) :
+    isOccupied g s n w = true ↔
+      (g.node n).flat = false ∧
+        (match (g.node n).shape with
+         | .own => w ∈ sharedStarted g s n
+         | .swarm => limit g s n ≤ scopedCount g s n w
+         | .global => limit g s n ≤ scopedCount g s n w) :=
+  isOccupied_iff g s n w
+
+/-- a worker is let in only when its scope has room -/
+theorem room_when_let_in (g : Graph) (s : State) (n w : Nat) (hf : (g.node n).flat = false)
+    (h : isOccupied g s n w = false) : scopedCount g s n w < limit g s n :=
+  room_of_not_occupied g s n w hf h
+
+/-- initially nothing is started -/
+theorem inv_init (g : Graph) (ncls : Nat) (store : List (String × List (String × String))) :
+    Inv g (initState g ncls store) :=
+  inv_initState g ncls store
+
+/-- one scheduler step of any worker, with any outcome of the awaited test and any fuel, preserves the invariant -/
+theorem inv_resume (g : Graph) (s : State) (w : Nat) (out : Outcome) (fuel : Nat) (hH : Homog g) (hI : Inv g s) :
+    Inv g (resume g s w out fuel).1 :=
+  I2N.Trav.inv_resume g s w out fuel hH hI
+
+/-- **C04.** In every reachable state, for every parsed copy `n` and every observer `w`, the number of workers in
+`w`'s scope that have `n`'s class started is at most the largest threshold of the class. -/
+theorem exclusion (g : Graph) (ncls : Nat) (store : List (String × List (String × String))) (s : State)
+    (hH : Homog g) (hr : Reachable g ncls store s) : Inv g s := by
+  induction hr with
+  | init => exact inv_init g ncls store
+  | step s w out fuel _ ih => exact inv_resume g s w out fuel hH ih
+
+/-- the same, spelled out -/
+theorem exclusion_count (g : Graph) (ncls : Nat) (store : List (String × List (String × String))) (s : State)
+    (hH : Homog g) (hr : Reachable g ncls store s) (n : Nat) (hn : n < g.nodes.length) (hf : (g.node n).flat = false)
+    (w : Nat) :
+    ((sharedStarted g s n).filter (inScopeOf (g.node n).shape g w)).length ≤ classLimit g s (g.node n).cls :=
+  exclusion g ncls store s hH hr n hn hf w
+
+/-- the same for an explicit schedule: any list of (worker, outcome) pairs, of any length -/
+theorem exclusion_schedule (g : Graph) (ncls : Nat) (store : List (String × List (String × String))) (fuel : Nat)
+    (l : List (Nat × Outcome)) (hH : Homog g) : Inv g (runSchedule g fuel (initState g ncls store) l) :=
+  exclusion g ncls store _ hH (reachable_runSchedule g ncls store fuel l _ Reachable.init)
+
+/-- Without a bump the static thresholds bound the count: if every copy of `n`'s class has
+`max(max_concurrent_tries (default max_tries (default 1)), 1) ≤ B`, at most `B` workers of a scope hold the class. -/
+theorem exclusion_static (g : Graph) (ncls : Nat) (store : List (String × List (String × String))) (s : State)
+    (hH : Homog g) (hr : Reachable g ncls store s) (hb : NoBump s)
+    (n : Nat) (hn : n < g.nodes.length) (hf : (g.node n).flat = false) (B : Nat)
+    (hB : ∀ m, m < g.nodes.length → (g.node m).cls = (g.node n).cls → limit0 g m ≤ B) (w : Nat) :
+    scopedCount g s n w ≤ B :=
+  Nat.le_trans (exclusion g ncls store s hH hr n hn hf w) (classLimit_noBump_le g s _ B hb hB)
+
+/-- uniform static `max_concurrent_tries` within the class: the count never exceeds `max(mct, 1)` -/
+theorem exclusion_static_uniform (g : Graph) (ncls : Nat) (store : List (String × List (String × String))) (s : State)
+    (hH : Homog g) (hr : Reachable g ncls store s) (hb : NoBump s)
+    (n : Nat) (hn : n < g.nodes.length) (hf : (g.node n).flat = false)
+    (hU : ∀ m, m < g.nodes.length → (g.node m).cls = (g.node n).cls →
+      (g.node m).mct = (g.node n).mct ∧ (g.node m).maxTries = (g.node n).maxTries) (w : Nat) :
+    scopedCount g s n w ≤ (max ((g.node n).mct.getD ((g.node n).maxTries.getD 1)) 1).toNat := by
+  apply exclusion_static g ncls store s hH hr hb n hn hf _ _ w
+  intro m hm hc
+  unfold limit0
+  rw [(hU m hm hc).1, (hU m hm hc).2]
+  exact Nat.le_refl _
+
+/-- Where thresholds only grow (`max_concurrent_tries` configured, or `max_tries ≤ 1`, on every node) the bound is the
+maximum over the class of the thresholds *currently* in force, bumps included. -/
+theorem exclusion_now (g : Graph) (ncls : Nat) (store : List (String × List (String × String))) (s : State)
+    (hH : Homog g) (hM : MonoLimits g) (hr : Reachable g ncls store s)
+    (n : Nat) (hn : n < g.nodes.length) (hf : (g.node n).flat = false) (w : Nat) :
+    scopedCount g s n w ≤ classLimitNow g s (g.node n).cls := by
+  rw [← classLimit_eq_now g s _ hM]
+  exact exclusion g ncls store s hH hr n hn hf w
+
+/-- **The sentence of the property.** With threshold 1 on the class (the default) and no bump, two marks of the class
+held at the same instant within one scope belong to one and the same worker: a test is never executed by two workers
+of one scope at the same time. -/
+theorem never_two_workers (g : Graph) (ncls : Nat) (store : List (String × List (String × String))) (s : State)
+    (hH : Homog g) (hr : Reachable g ncls store s) (hb : NoBump s)
+    (n : Nat) (hn : n < g.nodes.length) (hf : (g.node n).flat = false)
+    (h1 : ∀ m, m < g.nodes.length → (g.node m).cls = (g.node n).cls → limit0 g m ≤ 1)
+    (i j v v' : Nat) (hi : i ∈ g.copies n) (hj : j ∈ g.copies n)
+    (hv : (s.nd i).started = some v) (hv' : (s.nd j).started = some v')
+    (hsc : inScopeOf (g.node n).shape g v v' = true) : v = v' :=
+  same_worker_of_count_le_one g s n i j v v'
+    (exclusion_static g ncls store s hH hr hb n hn hf 1 h1 v) hi hj hv hv' hsc
+
+/-! ### non-vacuity of the invariant theorems -/
+
+/-- a test that never reports -/
+def noOut : Outcome := { status := none }
+
+/-- net1 has gone to the customize node and suspended inside it; then net2 came to its own copy, found the class
+occupied and bounced -/
+def s3r : State := runSchedule g3 10 (initState g3 2 []) [(0, noOut), (1, noOut)]
+
+example : Homog g3 := by decide
+example : MonoLimits g3 := by decide
+example : Reachable g3 2 [] s3r := reachable_runSchedule g3 2 [] 10 _ _ Reachable.init
+example : Inv g3 s3r := exclusion_schedule g3 2 [] 10 _ (by decide)
+
+set_option maxRecDepth 100000 in
+/-- the reached state is not trivial: one worker inside, the second one turned away at a full class -/
+example : (s3r.nd 0).started = some 0 ∧ (s3r.nd 1).started = none ∧ (s3r.wd 1).path = [3] ∧
+    scopedCount g3 s3r 1 1 = 1 ∧ classLimit g3 s3r 0 = 1 ∧ isOccupied g3 s3r 1 1 = true ∧
+    s3r.nodes.all (fun d => d.bump == 0) = true := by decide +kernel
+
+/-- the first bump lowers the threshold of a copy with `max_tries = 3` and no `max_concurrent_tries` from 3 to 1 -/
+def gB : Graph :=
+  { workers := [{ id := "net1", swarm := "localhost" }],
+    nodes := [{ cls := 0, owner := some 0, name := "all.t.vms.vm1.nets.localhost.net1", pfx := "1", maxTries := some 3 }],
+    root := 0 }
+
+theorem first_bump_may_lower_limit :
+    limit gB (initState gB 1 []) 0 = 3 ∧
+    limit gB ((initState gB 1 []).setNd 0 (fun d => { d with bump := d.bump + 1 })) 0 = 1 ∧
+    peakLimit gB ((initState gB 1 []).setNd 0 (fun d => { d with bump := d.bump + 1 })) 0 = 3 := by decide
+
+/-- `Homog` cannot be dropped: give net2's copy of the customize node the `own` shape (an lxc worker without swarm
+next to globally scoped ones); it ignores the threshold and joins net1, so two workers of net1's (global) scope hold
+the class although every copy has threshold 1. -/
+def g3m : Graph :=
+  { g3 with nodes := g3.nodes.modify 1 (fun nd => { nd with shape := .own }) }
+
+def s3m : State := runSchedule g3m 10 (initState g3m 2 []) [(0, noOut), (1, noOut)]
+
+set_option maxRecDepth 100000 in
+theorem mixed_shapes_overlap :
+    ¬ Homog g3m ∧ Reachable g3m 2 [] s3m ∧ scopedCount g3m s3m 0 0 = 2 ∧ classLimit g3m s3m 0 = 1 :=
+  ⟨by decide, reachable_runSchedule g3m 2 [] 10 _ _ Reachable.init, by decide +kernel, by decide +kernel⟩
 
 end I2N.Props.C04
